@@ -14,6 +14,7 @@ type planarCase struct {
 	G         GSpec
 	Expect    int   // 1 planar by construction, 0 non-planar by construction, -1 unknown (oracle decides)
 	Perm      []int // relabelling
+	MorePerms [][]int // further relabellings (label-order dependent defects show only for a small fraction of labellings)
 	Subdivide []int // indices (into G.E) of edges to subdivide
 	DelEdge   int   // index of an edge to delete (subgraph closure), -1 none
 	DelVertex int   // vertex to delete, -1 none
@@ -206,6 +207,9 @@ func genPlanarCase(t *rapid.T, maxN int, mode int) planarCase {
 		expect = 0
 	}
 	c := planarCase{G: specOf(g), Expect: expect, Perm: genPerm(t, g.N, "pi"), DelEdge: -1, DelVertex: -1}
+	for k := sz(10, 30); k > 0 && g.N >= 5; k-- {
+		c.MorePerms = append(c.MorePerms, genPerm(t, g.N, "pi-more"))
+	}
 	m := len(c.G.E)
 	for k := rapid.IntRange(0, 3).Draw(t, "nsub"); k > 0 && m > 0; k-- {
 		c.Subdivide = append(c.Subdivide, rapid.IntRange(0, m-1).Draw(t, "sub"))
@@ -288,6 +292,11 @@ func checkPlanarCase(c planarCase, rec *Rec) error {
 	// relabelling
 	if err := expectSame(fmt.Sprintf("relabelling %v", c.Perm), g.Induced(c.Perm)); err != nil {
 		return err
+	}
+	for _, pi := range c.MorePerms {
+		if err := expectSame(fmt.Sprintf("relabelling %v", pi), g.Induced(pi)); err != nil {
+			return err
+		}
 	}
 	// subdividing edges
 	h := g.Copy()
@@ -382,12 +391,12 @@ func enumIsoClassesPlanar(yield func(planarCase) bool) {
 
 func init() {
 	RegisterRapid("C11_planar_constructed",
-		"rapid: planar-by-construction graphs (random triangulations by face insertion + edge flips, thinned triangulations, grids, triangulated polygons (outerplanar), wheels/prisms/antiprisms, triangulations glued at a cut vertex, trees/cacti) with n <= 40 (quick) / 300 (thorough): IsPlanar must say true; the independent oracle must agree with the construction. Plus the metamorphic relations on each: relabelling, subdividing up to 3 edges, adding pendant/isolated vertices, deleting an edge / a vertex of a planar graph, disjoint union with K4 (same answer) and with K5 (non-planar); dense, sparse and view inputs; any panic is a violation. Non-trivial: a block with >= 5 vertices and m <= 3n-6.",
+		"rapid: planar-by-construction graphs (random triangulations by face insertion + edge flips, thinned triangulations, grids, triangulated polygons (outerplanar), wheels/prisms/antiprisms, triangulations glued at a cut vertex, trees/cacti) with n <= 40 (quick) / 300 (thorough): IsPlanar must say true; the independent oracle must agree with the construction. Plus the metamorphic relations on each: 11 (thorough 31) uniform relabellings, subdividing up to 3 edges, adding pendant/isolated vertices, deleting an edge / a vertex of a planar graph, disjoint union with K4 (same answer) and with K5 (non-planar); dense, sparse and view inputs; any panic is a violation. Non-trivial: a block with >= 5 vertices and m <= 3n-6.",
 		Budget{Checks: 500, Shards: 1}, Budget{Checks: 1500, Shards: 8},
 		func(t *rapid.T) planarCase { return genPlanarCase(t, sz(40, 300), 0) }, checkPlanarCase)
 	RegisterRapid("C11_nonplanar_constructed",
 		"rapid: a K5 or K3,3 whose edges are subdivided by 0..3 vertices, built after (and partly on branch vertices of) a planar host so that it sits at the end of the labelling, plus up to 3 arbitrary extra edges; n <= 60 (quick) / 330 (thorough): IsPlanar must say false; same metamorphic relations. Non-trivial: as above.",
-		Budget{Checks: 500, Shards: 1}, Budget{Checks: 1500, Shards: 8},
+		Budget{Checks: 1000, Shards: 1}, Budget{Checks: 2000, Shards: 8},
 		func(t *rapid.T) planarCase { return genPlanarCase(t, sz(40, 300), 1) }, checkPlanarCase)
 	RegisterRapid("C11_threshold_differential",
 		"rapid: arbitrary graphs with n <= 12 (quick) / 20 (thorough) and n-2 <= m <= 3n-3 random edge insertions (around the 3n-6 threshold) against the independent path-addition (DMP) oracle, which was itself validated against networkx on 128000 graphs; same metamorphic relations. Non-trivial: as above.",
